@@ -22,6 +22,9 @@ fn main() {
         eprintln!("usage: svmon <ID> [--tier quick|thorough] [--seed N] [--replay FILE]");
         std::process::exit(64);
     }
+    if args[0] == "--miri-lane" {
+        std::process::exit(checks::miri_lane(args.get(1).map(String::as_str).unwrap_or("c05")));
+    }
     if args[0] == "--worker" {
         std::process::exit(checks::worker(&args[1..]));
     }
